@@ -103,13 +103,16 @@ def snap_block(arr, D, dtype):
                 ok = False
                 break
             k = round(v * D)
-            if abs(v - k / D) > tol * max(1.0, abs(v)) or abs(k) >= 2 ** 30:
+            if abs(v - k / D) > tol * max(1.0, abs(v)):
                 ok = False
                 break
             key = (k, D)
             q = _qcache.get(key)
             if q is None:
                 q = qj(Fraction(k, D))
+                if abs(q[0]) >= 2 ** 31 - 1 or q[1] >= 2 ** 31 - 1:      # TLC integers are 32 bit
+                    ok = False
+                    break
                 if len(_qcache) < 200000:
                     _qcache[key] = q
             parts.append(q)
